@@ -1,6 +1,7 @@
 import Driver.Util
 import CRModel.Params
 import CRModel.DrawSelect
+import CRModel.DrawParams
 open Lean CR.Drv
 
 namespace CR.Drv.C19
@@ -48,6 +49,7 @@ def predOfJson (j : Json) : P Pred := do
   | "none" => pure .none
   | "traj" => pure (.traj (← getInt j "final"))
   | "set" => pure (.setb (← getInt j "final"))
+  | "set-empty" => pure .setbEmpty
   | k => throw s!"pred kind {k}"
 
 def roleOfStr : String → P Role
@@ -62,7 +64,9 @@ def obstOfJson (j : Json) : P Obst := do
          occ := ← tsetOfJson (← field j "occ"), uncInit := ← getBool j "uncInit",
          stateAt := ← tsetOfJson (← field j "stateAt"), uncAt := ← tsetOfJson (← field j "uncAt"),
          sigAt := ← tsetOfJson (← field j "sigAt"), rectAt := ← tsetOfJson (← field j "rectAt"),
-         iconType := ← getBool j "iconType", hasLW := ← getBool j "hasLW" }
+         iconType := ← getBool j "iconType", hasLW := ← getBool j "hasLW",
+         orientIntInit := ← getBool j "orientIntInit", velIntInit := ← getBool j "velIntInit",
+         orientIntAt := ← tsetOfJson (← field j "orientIntAt"), velIntAt := ← tsetOfJson (← field j "velIntAt") }
 
 def dynFlagsOfJson (j : Json) : P DynFlags := do
   pure { tb := ← getInt j "tb", te := ← getInt j "te", drawShape := ← getBool j "draw_shape",
@@ -71,6 +75,7 @@ def dynFlagsOfJson (j : Json) : P DynFlags := do
          drawTrajectory := ← getBool j "draw_trajectory", drawHistory := ← getBool j "draw_history",
          histSteps := ← getInt j "hist_steps", histStepSize := ← getInt j "hist_step_size",
          drawInitialState := ← getBool j "draw_initial_state", showLabel := ← getBool j "show_label",
+         stateArrow := ← getBool j "state_arrow",
          trajTb := ← getInt j "traj_tb", trajTe := ← getInt j "traj_te", trajContinuous := ← getBool j "traj_continuous" }
 
 def flagsOfJson (j : Json) : P Flags := do
@@ -80,18 +85,42 @@ def flagsOfJson (j : Json) : P Flags := do
                  drawOccupancies := ← getBool ph "draw_occupancies" },
          tbStatic := ← getInt j "tb_static", tbEnv := ← getInt j "tb_env" }
 
+def anchorJ : Anchor → Json
+  | .exact => Json.str "exact"
+  | .center => Json.str "center"
+
+def midJ : Mid → Json
+  | .exact => Json.str "exact"
+  | .mid => Json.str "mid"
+
+def dynFlagsJ (f : DynFlags) : Json := Json.mkObj [
+  ("tb", intJ f.tb), ("te", intJ f.te), ("draw_shape", Json.bool f.drawShape), ("draw_icon", Json.bool f.drawIcon),
+  ("draw_direction", Json.bool f.drawDirection), ("draw_signals", Json.bool f.drawSignals),
+  ("draw_occupancies", Json.bool f.drawOccupancies), ("draw_trajectory", Json.bool f.drawTrajectory),
+  ("draw_history", Json.bool f.drawHistory), ("hist_steps", intJ f.histSteps), ("hist_step_size", intJ f.histStepSize),
+  ("draw_initial_state", Json.bool f.drawInitialState), ("show_label", Json.bool f.showLabel),
+  ("state_arrow", Json.bool f.stateArrow), ("traj_tb", intJ f.trajTb), ("traj_te", intJ f.trajTe),
+  ("traj_continuous", Json.bool f.trajContinuous)]
+
+def flagsJ (f : Flags) : Json := Json.mkObj [
+  ("dyn", dynFlagsJ f.dyn),
+  ("ph", Json.mkObj [("tb", intJ f.ph.tb), ("te", intJ f.ph.te), ("draw_shape", Json.bool f.ph.drawShape),
+                     ("draw_occupancies", Json.bool f.ph.drawOccupancies)]),
+  ("tb_static", intJ f.tbStatic), ("tb_env", intJ f.tbEnv)]
+
 def itemJ : Item → Json
   | .occ t => Json.arr #[Json.str "occ", intJ t]
   | .uncInit => Json.arr #[Json.str "uncInit"]
   | .uncState t => Json.arr #[Json.str "uncState", intJ t]
   | .hist t => Json.arr #[Json.str "hist", intJ t]
   | .dir => Json.arr #[Json.str "dir"]
-  | .icon => Json.arr #[Json.str "icon"]
+  | .icon a r => Json.arr #[Json.str "icon", anchorJ a, midJ r]
   | .sig => Json.arr #[Json.str "sig"]
   | .trajLine => Json.arr #[Json.str "trajLine"]
   | .uncTraj t => Json.arr #[Json.str "uncTraj", intJ t]
-  | .label => Json.arr #[Json.str "label"]
-  | .state => Json.arr #[Json.str "state"]
+  | .label a => Json.arr #[Json.str "label", anchorJ a]
+  | .state a none => Json.arr #[Json.str "state", anchorJ a, Json.null]
+  | .state a (some (r, v)) => Json.arr #[Json.str "state", anchorJ a, Json.arr #[midJ r, midJ v]]
 
 def optIds (j : Json) (k : String) : P (Option (List Int)) :=
   match fieldOpt j k with
@@ -105,10 +134,9 @@ def stepSet (g : Grp) (op : Json) : P (Except String Grp) := do
     let path ← listOf asStr path
     let name ← asStr name
     let v ← valOfJson v
-    if !v.okFor name then pure (.error "outside-model") else
-    match g.setAt name v path with
-    | some g' => pure (.ok g')
-    | none => pure (.error "attr")
+    match g.setAtPy name v path with
+    | .ok g' => pure (.ok g')
+    | .error e => pure (.error e.toString)
   | _ => throw "op: expected [path, name, value]"
 
 def handle (op : String) (a : Json) : P Json := do
@@ -128,7 +156,26 @@ def handle (op : String) (a : Json) : P Json := do
   | "draw" =>
     let f ← flagsOfJson (← field a "flags")
     let os ← getList obstOfJson a "obstacles"
-    pure <| Json.arr ((drawScenario f os).map fun l => Json.arr (l.map itemJ).toArray).toArray
+    pure <| resJ (fun r => Json.arr (r.map fun l => Json.arr (l.map itemJ).toArray).toArray) (drawScenarioC f os)
+  | "flags_of" =>
+    -- the flags and windows the drawing functions read from a parameter tree (null if a read fails)
+    pure <| optJ flagsJ (flagsOf (← grpOfJson (← field a "tree")))
+  | "draw_tree" =>
+    -- parameter tree + obstacles -> patches: flagsOf, then the checked selection logic
+    let os ← getList obstOfJson a "obstacles"
+    match flagsOf (← grpOfJson (← field a "tree")) with
+    | none => pure Json.null
+    | some f => pure <| resJ (fun r => Json.arr (r.map fun l => Json.arr (l.map itemJ).toArray).toArray) (drawScenarioC f os)
+  | "net" =>
+    let ls ← getList (fun j => do pure ({ id := ← getInt j "id", leftBorder := ← getBool j "left_border" } : LaneletInfo)) a "lanelets"
+    let f : NetFlags := { drawIds := ← optIds a "draw_ids", borderVertices := ← getBool a "border_vertices",
+                          leftBound := ← getBool a "left_bound", rightBound := ← getBool a "right_bound" }
+    pure <| resJ (fun r => Json.mkObj [("drawn", Json.arr (r.drawn.map intJ).toArray),
+                                       ("border_collections", natJ r.borderCollections)]) (drawNetC f ls)
+  | "lights" =>
+    let ls ← getList (fun j => do pure ({ hasPosition := ← getBool j "has_position", active := ← getBool j "active",
+                                          state := ← getStr j "state" } : LightInfo)) a "lights"
+    pure <| resJ (fun r => Json.arr (r.map Json.str).toArray) (lightLabelsC (← getBool a "show_label") ls)
   | "lanelets" =>
     let ids ← getList asInt a "ids"
     pure <| Json.arr ((laneletsDrawn ids (← optIds a "draw_ids")).map intJ).toArray
